@@ -160,6 +160,10 @@ func propC01(c *Ctx) {
 	r5 := c.Rule("R5", "typestate", "a segment's list links are not read after its removal unless Remove preserves them (cursor fix-ups such as writeNext = seg.Next())", 3)
 	c.LinkTypestate(r5, "tcp.segmentList", "tcp.segmentEntry")
 
+	// ---- R8
+	r8 := c.Rule("R8", "K7 site tables (closed)", "the segment list (write list, send queue, receive list) is a correct doubly-linked list: PushBack, InsertAfter, Remove, Front, links", 20)
+	c.ListImpl(r8, "tcp", "segmentList", "segmentEntry", "segmentElementMapper", "PushBack", "InsertAfter", "Remove")
+
 	// ---- R7
 	r7 := c.Rule("R7", "K9 site tables (closed)", "the out-of-order heap is a heap over sequenceNumber.LessThan: Len/Less/Swap/Push/Pop; segment reference counting", 9)
 	c.HeapImpl(r7, "tcp.segmentHeap.", "(*tcp.segmentHeap).", "seqnum.Value.LessThan($0[$1].sequenceNumber, $0[$2].sequenceNumber)")
